@@ -212,6 +212,20 @@ class PolarsCoerceHelper(Contract):
                     cells[lib] = sorted((str(c), int(i), str(v)) for c, i, v in zip(fc["column"], fc["index"], fc["failure_case"]))
                 except Exception as e:  # noqa: BLE001
                     cells[lib] = "leaked " + type(e).__name__
+            # C18: a depth that validates data sees the uncoercible values, DATA_ONLY as SCHEMA_AND_DATA does
+            by_depth = {}
+            for depth in (ValidationDepth.SCHEMA_AND_DATA, ValidationDepth.DATA_ONLY):
+                try:
+                    with config_context(validation_depth=depth):
+                        pp.DataFrameSchema({"a": pp.Column(int, coerce=True, nullable=True)}).validate(pl.LazyFrame({"a": ["1", "x"]}))
+                    by_depth[depth.name] = "accepted"
+                except (pa.errors.SchemaError, pa.errors.SchemaErrors):
+                    by_depth[depth.name] = "rejected"
+                except Exception as e:  # noqa: BLE001
+                    by_depth[depth.name] = "leaked " + type(e).__name__
+            if set(by_depth.values()) != {"rejected"}:
+                bad = True
+                obs["Column(int, coerce=True, nullable=True) on LazyFrame a=['1','x'] by depth"] = by_depth
             want = [("a", 1, "x"), ("b", 0, "y")]
             if cells["polars"] != want:
                 bad = True
